@@ -215,6 +215,14 @@ type c15In struct {
 	Mut    [][]any           `json:"mut,omitempty"` // [dir, offset, xor]
 	Raw    map[string]string `json:"raw,omitempty"` // whole byte string of a direction (fuzz)
 	Note   string            `json:"note,omitempty"`
+	// Reuse > 0: the caller behaves like a bufio.Reader / bufio.Writer: ONE backing array per direction
+	// is used for every Read (every Write) of the script; before each call the whole array is
+	// overwritten with a canary that differs from call to call (what a real caller's next fill does
+	// to the bytes of the previous call), the slice handed to the wrapper starts Reuse-1 bytes into
+	// the array and has spare capacity behind its length.  After the call the caller looks at the
+	// WHOLE array: the bytes of this call where the inner connection put them, the canary everywhere
+	// else (in front of the slice, beyond n, in the capacity region).
+	Reuse int `json:"reuse,omitempty"`
 }
 
 type c15Unit struct {
@@ -654,27 +662,7 @@ func c15Conn(in *c15In) c15Out {
 func c15ConnOnce(in *c15In) (c15Out, time.Duration) {
 	t0 := time.Now()
 	var slept time.Duration
-	q, p, lens := c15Build(in.Frames)
-	if in.Raw != nil {
-		if s, ok := in.Raw["q"]; ok {
-			q = c15Unhex(s)
-		}
-		if s, ok := in.Raw["p"]; ok {
-			p = c15Unhex(s)
-		}
-	}
-	for _, m := range in.Mut {
-		if len(m) < 3 {
-			continue
-		}
-		b := q
-		if c15Str(m[0]) == "p" {
-			b = p
-		}
-		if len(b) > 0 {
-			b[c15Num(m[1])%len(b)] ^= byte(c15Num(m[2]))
-		}
-	}
+	q, p, lens := c15Bytes(in)
 	out := c15Out{Q: gen.Hex(q), P: gen.Hex(p), Lens: lens, Transparent: true,
 		Units: map[string][]c15Unit{"q": c15Units(q, true), "p": c15Units(p, false)}}
 	rbytes, wbytes := p, q
@@ -691,6 +679,7 @@ func c15ConnOnce(in *c15In) (c15Out, time.Duration) {
 	inner := &c15Inner{}
 	conn := tracer.TracingHTTP2Conn(inner, in.Server, sink)
 	rpos, wpos := 0, 0
+	rarr, warr := c15NewArray(in.Calls, "r", in.Reuse), c15NewArray(in.Calls, "w", in.Reuse)
 	take := func(b []byte, pos, n int) []byte {
 		if pos > len(b) {
 			pos = len(b)
@@ -711,22 +700,30 @@ func c15ConnOnce(in *c15In) (c15Out, time.Duration) {
 			rpos += c15Num(call[1])
 			inner.rData = chunk
 			inner.rErr = c15MkErr(c15Str(call[2]), c15Str(call[3]))
-			buf := make([]byte, len(chunk)+(len(chunk)*7+3)%5)
-			for i := range buf {
-				buf[i] = 0xA5
+			slack := (len(chunk)*7 + 3) % 5
+			var buf, arr []byte
+			canary := byte(0xA5)
+			off := 0
+			if in.Reuse > 0 {
+				canary, off = c15Canary(ci), in.Reuse-1
+				arr = rarr.get(off + len(chunk) + slack)
+				buf = arr[off : off+len(chunk)+slack]
+			} else {
+				buf = make([]byte, len(chunk)+slack)
+				arr = buf
+			}
+			for i := range arr {
+				arr[i] = canary
 			}
 			n, err := conn.Read(buf)
 			if n != len(chunk) || err != inner.rErr {
 				viol("call %d: Read returned (%d, %v), the inner connection (%d, %v)", ci, n, err, len(chunk), inner.rErr)
 			} else if !bytes.Equal(buf[:n], chunk) {
 				viol("call %d: Read delivered different bytes", ci)
-			} else {
-				for _, x := range buf[n:] {
-					if x != 0xA5 {
-						viol("call %d: Read touched the buffer beyond n", ci)
-						break
-					}
-				}
+			} else if k := c15NotCanary(arr[:off], canary); k >= 0 {
+				viol("call %d: Read touched the caller's array in front of the buffer", ci)
+			} else if k := c15NotCanary(arr[off+n:], canary); k >= 0 {
+				viol("call %d: Read touched the buffer beyond n (offset n+%d)", ci, k)
 			}
 		case "w":
 			chunk := take(wbytes, wpos, c15Num(call[1]))
@@ -744,7 +741,21 @@ func c15ConnOnce(in *c15In) (c15Out, time.Duration) {
 				}
 			}
 			inner.wGot = nil
-			arg := append([]byte{}, chunk...)
+			var arg, arr []byte
+			canary := byte(0xA5)
+			off := 0
+			if in.Reuse > 0 {
+				canary, off = c15Canary(ci), in.Reuse-1
+				arr = warr.get(off + len(chunk))
+				for i := range arr {
+					arr[i] = canary
+				}
+				arg = arr[off : off+len(chunk)]
+				copy(arg, chunk)
+			} else {
+				arg = append([]byte{}, chunk...)
+				arr = arg
+			}
 			n, err := conn.Write(arg)
 			if n != inner.wN || err != inner.wErr {
 				viol("call %d: Write returned (%d, %v), the inner connection (%d, %v)", ci, n, err, inner.wN, inner.wErr)
@@ -752,6 +763,8 @@ func c15ConnOnce(in *c15In) (c15Out, time.Duration) {
 				viol("call %d: the inner connection was given different bytes", ci)
 			} else if !bytes.Equal(arg, chunk) {
 				viol("call %d: Write modified its argument", ci)
+			} else if c15NotCanary(arr[:off], canary) >= 0 || c15NotCanary(arr[off+len(chunk):], canary) >= 0 {
+				viol("call %d: Write touched the caller's array outside its argument", ci)
 			}
 		case "c":
 			inner.cErr = c15MkErr(c15Str(call[1]), c15Str(call[2]))
@@ -778,6 +791,71 @@ func c15ConnOnce(in *c15In) (c15Out, time.Duration) {
 	// release timers of traces still held back (after the observation)
 	gen.Recover(func() { conn.Close() })
 	return out, busy
+}
+
+// c15Bytes: the byte strings of the two directions of an input (frames built by the real Framer,
+// replaced by raw bytes / mutated where the input says so).
+func c15Bytes(in *c15In) (q, p []byte, lens []int) {
+	q, p, lens = c15Build(in.Frames)
+	if in.Raw != nil {
+		if s, ok := in.Raw["q"]; ok {
+			q = c15Unhex(s)
+		}
+		if s, ok := in.Raw["p"]; ok {
+			p = c15Unhex(s)
+		}
+	}
+	for _, m := range in.Mut {
+		if len(m) < 3 {
+			continue
+		}
+		b := q
+		if c15Str(m[0]) == "p" {
+			b = p
+		}
+		if len(b) > 0 {
+			b[c15Num(m[1])%len(b)] ^= byte(c15Num(m[2]))
+		}
+	}
+	return q, p, lens
+}
+
+// c15AllocLimit: inputs on which the tracer would pre-allocate more than this for one message are
+// not run (counted in the evidence): the check has to fit a shared machine.
+const c15AllocLimit = 64 << 20
+
+// c15Array is the ONE backing array a reusing caller owns for a direction: allocated once, large
+// enough for the largest call of the script (as a bufio buffer is sized once).
+type c15Array struct{ b []byte }
+
+func (a *c15Array) get(n int) []byte {
+	if n > len(a.b) { // cannot happen: sized from the script
+		panic("c15: caller array too small")
+	}
+	return a.b
+}
+
+func c15NewArray(calls [][]any, kind string, off int) *c15Array {
+	m := 0
+	for _, call := range calls {
+		if len(call) >= 2 && c15Str(call[0]) == kind && c15Num(call[1]) > m {
+			m = c15Num(call[1])
+		}
+	}
+	return &c15Array{b: make([]byte, off+m+32)}
+}
+
+// c15Canary: what the caller's array is filled with before call ci (never the same for two
+// successive calls).
+func c15Canary(ci int) byte { return [...]byte{0xA5, 0x5A, 0xEE, 0x00, 0xFF}[ci%5] }
+
+func c15NotCanary(b []byte, canary byte) int {
+	for i, x := range b {
+		if x != canary {
+			return i
+		}
+	}
+	return -1
 }
 
 // ---------------------------------------------------------------- generator
@@ -1101,9 +1179,33 @@ type c15Gen struct {
 	c     *gen.Ctx
 	r     *gen.Rand
 	batch []any
+	n     int
 }
 
 func (g *c15Gen) emit(in c15In, class string) {
+	g.n++
+	if c15MaxEndStreamAlloc(&in) > c15AllocLimit {
+		g.c.E.Count("skipped:declares-end-stream-message-above-64MiB")
+		return
+	}
+	g.emit1(in, class)
+	// ... and the same script with a caller that reuses ONE array per direction for all its
+	// Reads / Writes (bufio-style); fuzzed inputs: every other one
+	fuzzed := strings.HasPrefix(class, "random-bytes") || strings.HasPrefix(class, "illegal") || strings.HasPrefix(class, "mutated") || strings.HasPrefix(class, "scrambled")
+	switch {
+	case fuzzed && !g.c.Thorough() && g.n%2 == 0:
+		return
+	case fuzzed && g.c.Thorough() && g.n%4 != 1: // thorough tier (-race harness): one in four
+		return
+	case g.c.Thorough() && strings.Contains(class, "err") && g.n%2 == 0: // bytes-with-error families: every other one
+		return
+	}
+	in.Reuse = 1 + g.n%4
+	g.c.E.Count("caller:reused-array")
+	g.emit1(in, class)
+}
+
+func (g *c15Gen) emit1(in c15In, class string) {
 	g.c.E.Count("class:" + class)
 	if in.Server {
 		g.c.E.Count("side:server")
